@@ -36,6 +36,8 @@ type vc07Op struct {
 	N      int          `json:"n,omitempty"`
 	Pn     int          `json:"pn"`
 	V      int          `json:"v"`
+	H      uint64       `json:"h,omitempty"` // bidx: a key hash given directly (chain start on a short cycle of the murmur3 chain)
+	Xh     [][2]uint64  `json:"xh,omitempty"`
 	Loc    []int        `json:"loc"`
 	Peer   []int        `json:"peer"`
 	Tamper []vc07Tamper `json:"tamper"`
@@ -102,6 +104,48 @@ func vc07Digest(i *Iblt) uint64 {
 	return acc
 }
 
+// the members of the short cycles of next -> murmur3.SeedSum32(ibltHk, next) (fixed point, 2-cycle, 3-cycle; repo commit f733621)
+var vc07Cycle = []uint32{4101757383, 2381736504, 3264639879, 1532747441, 4107318918, 2685067771}
+
+func vc07Inv32(x uint32) uint32 { // inverse of an odd number mod 2^32 (Newton)
+	inv := x
+	for i := 0; i < 6; i++ {
+		inv *= 2 - x*inv
+	}
+	return inv
+}
+
+func vc07Rotr(x uint32, r uint) uint32 { return x>>r | x<<(32-r) }
+
+// vc07Preimage returns a 64-bit key hash h whose 8 little-endian bytes murmur3-32 (seed ibltHk) to target: first block 0,
+// second block solved by inverting the finalizer and the block mix (every step of murmur3_32 is a bijection on uint32)
+func vc07Preimage(target uint32) (uint64, bool) {
+	const c1, c2 = uint32(0xcc9e2d51), uint32(0x1b873593)
+	h := target
+	h ^= h >> 16
+	h *= vc07Inv32(0xc2b2ae35)
+	h ^= h >> 13
+	h ^= h >> 26
+	h *= vc07Inv32(0x85ebca6b)
+	h ^= h >> 16
+	h ^= 8 // length
+	// state after block 1 (k1 = 0): h1 = rotl(seed,13)*5 + n
+	h1 := ibltHk
+	h1 = (h1<<13 | h1>>19)
+	h1 = h1*5 + 0xe6546b64
+	// h = rotl(h1 ^ k, 13)*5 + n
+	x := (h - 0xe6546b64) * vc07Inv32(5)
+	x = vc07Rotr(x, 13)
+	k := x ^ h1
+	k *= vc07Inv32(c2)
+	k = vc07Rotr(k, 15)
+	k *= vc07Inv32(c1)
+	res := uint64(k) << 32
+	buf := make([]byte, 8)
+	byteOrder.PutUint64(buf, res)
+	return res, murmur3.SeedSum32(ibltHk, buf) == target
+}
+
 func vc07Universe() vc07Op {
 	u := vc07Op{Op: "ibltuni", Bits: vc07Bits}
 	i := NewIblt(8)
@@ -122,6 +166,23 @@ func vc07Universe() vc07Op {
 			nn := murmur3.SeedSum32(ibltHk, buf4)
 			u.Chain = append(u.Chain, [2]uint32{next, nn})
 			next = nn
+		}
+	}
+	// key hashes whose chain starts on a short cycle: bucketIndices must fall back to linear probing
+	for _, c := range vc07Cycle {
+		if h, ok := vc07Preimage(c); ok {
+			u.Xh = append(u.Xh, [2]uint64{h, uint64(c)})
+			next := c
+			for s := 0; s < 4; s++ {
+				if seen[next] {
+					break
+				}
+				seen[next] = true
+				byteOrder.PutUint32(buf4, next)
+				nn := murmur3.SeedSum32(ibltHk, buf4)
+				u.Chain = append(u.Chain, [2]uint32{next, nn})
+				next = nn
+			}
 		}
 	}
 	return u
@@ -146,7 +207,11 @@ func vc07Run(op *vc07Op) (line string) {
 		return fmt.Sprintf("ibltuni keys=%d chain=%d", len(op.Hk), len(op.Chain))
 	case "bidx":
 		i := vc07Table(op.N)
-		idx := i.bucketIndices(i.hashKey(vc07Ref(op.V)))
+		kh := op.H
+		if kh == 0 {
+			kh = i.hashKey(vc07Ref(op.V))
+		}
+		idx := i.bucketIndices(kh)
 		s := make([]string, len(idx))
 		for j, x := range idx {
 			s[j] = strconv.Itoa(int(x))
@@ -357,6 +422,11 @@ func TestVerifC07Iblt(t *testing.T) {
 		bn := []int{1, 2, 3, 4, 5, 6, 7, 8, 12, 16, 64, 1024}
 		for i := 0; i < nIdx; i++ {
 			ops = append(ops, vc07Op{Op: "bidx", N: bn[i%len(bn)], V: rng.Intn(1 << vc07Bits), Loc: []int{}, Peer: []int{}, Tamper: []vc07Tamper{}})
+		}
+		for _, xh := range uni.Xh {
+			for _, n := range []int{1, 2, 3, 5, 6, 7, 8, 16, 64, 1024} {
+				ops = append(ops, vc07Op{Op: "bidx", N: n, H: xh[0], Loc: []int{}, Peer: []int{}, Tamper: []vc07Tamper{}})
+			}
 		}
 		for i := 0; i < nIblt; i++ {
 			ops = append(ops, vc07Gen(rng, &uni, i))
